@@ -1215,9 +1215,13 @@ def r716(rep: Report, ctx: Ctx) -> None:
          "P:loop.loop_events,P:graph)", "1"),
         ("truth", f"any(((DUMMY_END_EVENT Eq each(P:graph.successors({B}))"
          ".event_type) for..))", "1")])), "1")
-    inner = [("truth", f"has_path_back_to_chosen_nodes({PRED},P:loop."
-              "loop_events.difference(P:loop.end_events),P:graph)", "1"),
-             ("cmp", PRED, "In", "P:loop.end_events", "0")]
+    # the predecessor is an event of the loop that is not an end event (the
+    # reachability test of the pinned tree is implied for such an event and
+    # may stay)
+    reach = ("truth", f"has_path_back_to_chosen_nodes({PRED},P:loop."
+             "loop_events.difference(P:loop.end_events),P:graph)", "1")
+    inner = [("cmp", PRED, "In", "P:loop.end_events", "0"),
+             ("cmp", PRED, "In", "P:loop.loop_events", "1")]
     expect(rep, "R7.16", fi, effs, "a break event that is an exit of SOME "
            "end event (or directly before the dummy end) stops being a "
            "break event", name="remove", recv="P:loop.break_events",
@@ -1234,11 +1238,11 @@ def r716(rep: Report, ctx: Ctx) -> None:
                name="update_event_sets", recv=PRED,
                args=(f"each({LWL}({PRED}.event_sets,{OVL}({PRED}.event_sets,"
                      f"{{{B}.event_type}}),DUMMY_BREAK_EVENT_TYPE))",),
-               must=both)
+               must=both, may=[reach])
     r = expect(rep, "R7.16", fi, effs, "the edge predecessor -> break event "
                "is removed with its mirror sets",
                name="remove_event_edges_and_event_sets",
-               args=(f"{{EventEdge({PRED},{B})}}", "P:graph"), must=both)
+               args=(f"{{EventEdge({PRED},{B})}}", "P:graph"), must=both, may=[reach])
     calls = [c for c in ast.walk(fi.node) if isinstance(c, ast.Call)
              and call_name(c) == LWL]
     if len(calls) == 1 and r is not None:
@@ -1249,23 +1253,43 @@ def r716(rep: Report, ctx: Ctx) -> None:
                       "name the break event: nothing would be rewritten")
     expect(rep, "R7.16", fi, effs, "the dummy break's successor set is the "
            "break event", name="update_event_sets", recv=DUMMY,
-           args=(f"[{B}.event_type]",), must=both)
+           args=(f"[{B}.event_type]",), must=both, may=[reach])
     expect(rep, "R7.16", fi, effs, "the dummy break inherits the break "
            "event's predecessor sets that name this predecessor",
            name="update_in_event_sets", recv=DUMMY,
            args=(f"each({B}.in_event_sets).to_list()",),
            must=both + [("cmp", f"{PRED}.event_type", "In",
-                         f"each({B}.in_event_sets).to_frozenset()", "1")])
+                         f"each({B}.in_event_sets).to_frozenset()", "1")],
+           may=[reach])
     # ("the break event records the dummy break as a predecessor" is NOT an
     # obligation: the singleton set {DUMMY_BREAK} cannot decide any merge
     # and no nested reader matches it - triaged, DESIGN section 15)
     expect(rep, "R7.16", fi, effs, "edge predecessor -> dummy break",
-           name="add_edge", recv="P:graph", args=(PRED, DUMMY), must=both)
+           name="add_edge", recv="P:graph", args=(PRED, DUMMY), must=both, may=[reach])
     expect(rep, "R7.16", fi, effs, "edge dummy break -> break event",
-           name="add_edge", recv="P:graph", args=(DUMMY, B), must=both)
+           name="add_edge", recv="P:graph", args=(DUMMY, B), must=both, may=[reach])
     expect(rep, "R7.16", fi, effs, "the dummy break becomes a break event "
            "of the loop", name="add", recv="P:loop.break_events",
-           args=(DUMMY,), must=both)
+           args=(DUMMY,), must=both, may=[reach])
+    # the dummy break stands for `break` INSIDE the body: it may only be put
+    # behind an event of the loop.  "Reachable from the loop" is not enough -
+    # an event on a break path (outside the loop) is reachable too, and a
+    # dummy break behind it stays in the parent graph: `break` outside any
+    # repeat, followed by the rest of the branch (defect D9)
+    ins = [e for e in effs if e.kind == "call" and e.name == "add_edge"
+           and e.args == (PRED, DUMMY)]
+    member = [g for e in ins for g in e.guards if g[0] == "cmp"
+              and g[1] == PRED and g[2] == "In" and g[4] == "1"
+              and g[3].startswith("P:loop.loop_events")]
+    rep.ob("R7.16", "a dummy break is only put behind an event OF the loop",
+           len(ins) == 1 and bool(member), fi=fi,
+           node=ins[0].node if ins else fi.node,
+           detail=(f"edge {PRED} -> dummy break runs when "
+                   f"{[g for g in ins[0].guards if g != trig] if ins else '?'}"
+                   + ("" if member else " -- no condition restricts the "
+                      "predecessor to loop.loop_events: a predecessor on a "
+                      "break path gets a dummy break that is drawn as "
+                      "`break` outside the repeat")))
     ctors = [c for c in ast.walk(fi.node) if isinstance(c, ast.Call)
              and call_name(c) == "Event"]
     ok = len(ctors) == 1
